@@ -124,4 +124,221 @@ member is a set entry of the compound, an unset entry means no member depends on
 validated by the correspondence check against finite differences, not proved here.) -/
 theorem combined_corr_no_ec {ω} (w : LLWcs ω) : combinedWcs w none = .ok w := rfl
 
+/-- rows of the correlation matrix have one entry per pixel axis, one row per world axis, and
+`p2w` returns one value per world axis -/
+structure Shaped {ω} (w : LLWcs ω) : Prop where
+  rows : w.corr.length = w.worldDim
+  cols : ∀ r ∈ w.corr, r.length = w.pixDim
+  out : ∀ q, (w.p2w q).length = w.worldDim
+
+theorem corrAt_marked (corr : List (List Bool)) (mapping : List Nat) (nIn i ix j : Nat) (row : List Bool)
+    (hrow : corr[i]? = some row) (hj : j < mapping.length) (hmj : mapping[j]? = some ix) (hix : ix < nIn)
+    (hset : row.getD j false = true) :
+    corrAt (corr.map fun row => (List.range nIn).map fun ix =>
+      (List.range mapping.length).any fun i => mapping.getD i 0 = ix ∧ row.getD i false) i ix = true := by
+  simp only [corrAt, List.getD, List.getElem?_map, hrow, Option.map_some, Option.getD_some,
+    List.getElem?_range hix]
+  rw [List.any_eq_true]
+  refine ⟨j, List.mem_range.mpr hj, ?_⟩
+  have h1 : mapping[j]?.getD 0 = ix := by rw [hmj]; rfl
+  have h2 : row[j]?.getD false = true := by simpa [List.getD] using hset
+  simp [h1, h2]
+
+/-- **The combined correlation matrix misses no dependence**: if the primary WCS and the
+extra-coords WCS have truthful matrices, so has the combined WCS — world output `i` can change
+only along the pixel axes its row marks. -/
+theorem combined_corr_sound (w e c : LLWcs Rat) (m : List Nat) (h : combinedWcs w (some (e, m)) = .ok c)
+    (hn : 0 < w.pixDim) (hm : ∀ x ∈ m, x < w.pixDim) (hml : m.length = e.pixDim)
+    (hTw : C05.Truthful w) (hTe : C05.Truthful e) (hSw : Shaped w) (hSe : Shaped e) :
+    C05.Truthful c := by
+  have hfw := combined_forward w e c m h hn
+  simp only [combinedWcs] at h
+  have hne : List.range w.pixDim ++ m ≠ [] := by
+    intro hh
+    have := congrArg List.length hh
+    simp at this; omega
+  obtain ⟨hlen, hc, hcp, hcw, _⟩ := C14.compound_forward [w, e] _ c hne h
+  have hpd := combined_pixdim w.pixDim m hn hm
+  have hcpix : c.pixDim = w.pixDim := by rw [hcp, hpd]
+  have hcorr : c.corr = (blockDiag (w.pixDim + e.pixDim) [w, e] 0).map fun row =>
+      (List.range w.pixDim).map fun ix =>
+        (List.range (List.range w.pixDim ++ m).length).any fun i =>
+          (List.range w.pixDim ++ m).getD i 0 = ix ∧ row.getD i false := by
+    rw [hc]; simp [compoundCore, hpd]
+  intro i p p' hp hp' hagree
+  rw [hcpix] at hp hp'
+  rw [hfw p hp, hfw p' hp']
+  have hq : ∀ (q : List Rat), q.length = w.pixDim → ((selectIdx m q).take e.pixDim) = selectIdx m q := by
+    intro q hq
+    apply List.take_of_length_le
+    rw [selectIdx_length_of_lt m q (by intro x hx; have := hm x hx; omega)]; omega
+  rw [hq p hp, hq p' hp']
+  have hlw := hSw.out p
+  have hlw' := hSw.out p'
+  by_cases hi : i < w.worldDim
+  · -- a primary world axis
+    rw [List.getElem?_append_left (by omega), List.getElem?_append_left (by omega)]
+    apply hTw i p p' hp hp'
+    intro k hk hck
+    apply hagree k (by omega)
+    -- the combined matrix marks (i, k)
+    obtain ⟨row, hrow⟩ : ∃ row, w.corr[i]? = some row := ⟨w.corr[i]'(by rw [hSw.rows]; exact hi), List.getElem?_eq_getElem _⟩
+    have hrl := hSw.cols row (List.mem_of_getElem? hrow)
+    rw [hcorr]
+    apply corrAt_marked _ _ _ i k k (row ++ List.replicate (w.pixDim + e.pixDim - 0 - w.pixDim) false)
+    · simp only [blockDiag, List.replicate_zero, List.nil_append]
+      rw [List.getElem?_append_left (by simp; rw [hSw.rows]; exact hi)]
+      simp [hrow]
+    · simp; omega
+    · rw [List.getElem?_append_left (by simpa using hk)]; simp [List.getElem?_range hk]
+    · exact hk
+    · simp only [corrAt, List.getD, hrow, Option.getD_some] at hck
+      rw [List.getD, List.getElem?_append_left (by omega)]
+      exact hck
+  · -- an extra-coords world axis
+    have hi' : w.worldDim ≤ i := Nat.not_lt.mp hi
+    rw [List.getElem?_append_right (by omega), List.getElem?_append_right (by omega), hlw, hlw']
+    have hsel : ∀ (q : List Rat), q.length = w.pixDim → (selectIdx m q).length = e.pixDim := by
+      intro q hq
+      rw [selectIdx_length_of_lt m q (by intro x hx; have := hm x hx; omega)]; exact hml
+    apply hTe (i - w.worldDim) _ _ (hsel p hp) (hsel p' hp')
+    intro j hj hcj
+    rw [selectIdx_getElem? m p (by intro x hx; have := hm x hx; omega),
+        selectIdx_getElem? m p' (by intro x hx; have := hm x hx; omega)]
+    have hjm : j < m.length := by omega
+    rw [List.getElem?_eq_getElem hjm]
+    simp only [Option.bind_some]
+    have hmj := hm (m[j]) (List.getElem_mem hjm)
+    apply hagree (m[j]) (by omega)
+    -- by_cases on whether i - wd is a row of e (else corrAt false)
+    have hrowe : i - w.worldDim < e.corr.length := by
+      by_cases hcon : i - w.worldDim < e.corr.length
+      · exact hcon
+      · have : e.corr[i - w.worldDim]? = none := List.getElem?_eq_none (by omega)
+        simp [corrAt, List.getD, this] at hcj
+    obtain ⟨row, hrow⟩ : ∃ row, e.corr[i - w.worldDim]? = some row := ⟨e.corr[i - w.worldDim]'hrowe, List.getElem?_eq_getElem _⟩
+    have hrl := hSe.cols row (List.mem_of_getElem? hrow)
+    rw [hcorr]
+    apply corrAt_marked _ _ _ i (m[j]) (w.pixDim + j)
+      (List.replicate (0 + w.pixDim) false ++ row ++ List.replicate (w.pixDim + e.pixDim - (0 + w.pixDim) - e.pixDim) false)
+    · simp only [blockDiag, List.replicate_zero, List.nil_append, List.append_nil]
+      rw [List.getElem?_append_right (by simp; rw [hSw.rows]; exact hi')]
+      simp only [List.length_map, hSw.rows, List.getElem?_map, hrow, Option.map_some]
+    · simp; omega
+    · rw [List.getElem?_append_right (by simp)]; simp [List.getElem?_eq_getElem hjm]
+    · exact hmj
+    · simp only [corrAt, List.getD, hrow, Option.getD_some] at hcj
+      rw [List.getD, List.getElem?_append_left (by simp; omega), List.getElem?_append_right (by simp)]
+      simpa using hcj
+
+/-- **… and marks nothing else**: an entry of the combined matrix is set exactly when the
+primary WCS marks that pair, or the extra-coords WCS marks the world axis against one of its own
+pixel axes that the mapping places on that cube pixel axis. -/
+theorem combined_corr_exact (w e c : LLWcs Rat) (m : List Nat) (h : combinedWcs w (some (e, m)) = .ok c)
+    (hn : 0 < w.pixDim) (hm : ∀ x ∈ m, x < w.pixDim) (hml : m.length = e.pixDim)
+    (hSw : Shaped w) (hSe : Shaped e) (i ix : Nat) (hix : ix < w.pixDim) (hi : i < w.worldDim + e.worldDim) :
+    corrAt c.corr i ix = true ↔
+      (i < w.worldDim ∧ corrAt w.corr i ix = true) ∨
+      (w.worldDim ≤ i ∧ ∃ j, m[j]? = some ix ∧ corrAt e.corr (i - w.worldDim) j = true) := by
+  simp only [combinedWcs] at h
+  have hne : List.range w.pixDim ++ m ≠ [] := by
+    intro hh
+    have := congrArg List.length hh
+    simp at this; omega
+  obtain ⟨hlen, hc, hcp, hcw, _⟩ := C14.compound_forward [w, e] _ c hne h
+  have hpd := combined_pixdim w.pixDim m hn hm
+  have hcorr : c.corr = (blockDiag (w.pixDim + e.pixDim) [w, e] 0).map fun row =>
+      (List.range w.pixDim).map fun ix =>
+        (List.range (List.range w.pixDim ++ m).length).any fun i =>
+          (List.range w.pixDim ++ m).getD i 0 = ix ∧ row.getD i false := by
+    rw [hc]; simp [compoundCore, hpd]
+  have hbd : blockDiag (w.pixDim + e.pixDim) [w, e] 0 =
+      (w.corr.map fun row => row ++ List.replicate e.pixDim false) ++
+      (e.corr.map fun row => List.replicate w.pixDim false ++ row) := by
+    simp only [blockDiag, List.replicate_zero, List.nil_append, List.append_nil, Nat.zero_add]
+    congr 1
+    · apply List.map_congr_left; intro r _; congr 2; omega
+    · apply List.map_congr_left; intro r _
+      have : w.pixDim + e.pixDim - w.pixDim - e.pixDim = 0 := by omega
+      rw [this]; simp
+  constructor
+  · intro hset
+    rw [hcorr, hbd] at hset
+    simp only [corrAt, List.getD, List.getElem?_map] at hset
+    by_cases hiw : i < w.worldDim
+    · left
+      refine ⟨hiw, ?_⟩
+      rw [List.getElem?_append_left (by simp; rw [hSw.rows]; exact hiw)] at hset
+      obtain ⟨row, hrow⟩ : ∃ row, w.corr[i]? = some row := ⟨w.corr[i]'(by rw [hSw.rows]; exact hiw), List.getElem?_eq_getElem _⟩
+      have hrl := hSw.cols row (List.mem_of_getElem? hrow)
+      simp only [List.getElem?_map, hrow, Option.map_some, Option.getD_some, List.getElem?_range hix,
+        List.any_eq_true, List.mem_range] at hset
+      obtain ⟨j, hj, hdec⟩ := hset
+      obtain ⟨hmap, hrj⟩ := of_decide_eq_true hdec
+      simp only [corrAt, List.getD, hrow, Option.getD_some]
+      by_cases hjn : j < w.pixDim
+      · rw [List.getElem?_append_left (by simpa using hjn)] at hmap
+        simp only [List.getElem?_range hjn, Option.getD_some] at hmap
+        subst hmap
+        rw [List.getElem?_append_left (by omega)] at hrj
+        exact hrj
+      · rw [List.getElem?_append_right (by omega)] at hrj
+        rw [List.getElem?_replicate] at hrj
+        split at hrj <;> simp at hrj
+    · right
+      have hiw' : w.worldDim ≤ i := Nat.not_lt.mp hiw
+      refine ⟨hiw', ?_⟩
+      rw [List.getElem?_append_right (by simp; rw [hSw.rows]; exact hiw')] at hset
+      simp only [List.length_map, hSw.rows] at hset
+      have hie : i - w.worldDim < e.corr.length := by rw [hSe.rows]; omega
+      obtain ⟨row, hrow⟩ : ∃ row, e.corr[i - w.worldDim]? = some row := ⟨e.corr[i - w.worldDim]'hie, List.getElem?_eq_getElem _⟩
+      have hrl := hSe.cols row (List.mem_of_getElem? hrow)
+      simp only [List.getElem?_map, hrow, Option.map_some, Option.getD_some, List.getElem?_range hix,
+        List.any_eq_true, List.mem_range] at hset
+      obtain ⟨j, hj, hdec⟩ := hset
+      obtain ⟨hmap, hrj⟩ := of_decide_eq_true hdec
+      by_cases hjn : j < w.pixDim
+      · rw [List.getElem?_append_left (by simpa using hjn)] at hrj
+        rw [List.getElem?_replicate] at hrj
+        split at hrj <;> simp at hrj
+      · have hjn' : w.pixDim ≤ j := Nat.not_lt.mp hjn
+        rw [List.getElem?_append_right (by simpa using hjn')] at hmap hrj
+        simp only [List.length_range, List.length_replicate] at hmap hrj
+        have hjm : j - w.pixDim < m.length := by simp at hj; omega
+        rw [List.getElem?_eq_getElem hjm] at hmap
+        simp only [Option.getD_some] at hmap
+        refine ⟨j - w.pixDim, by rw [List.getElem?_eq_getElem hjm, hmap], ?_⟩
+        simp only [corrAt, List.getD, hrow, Option.getD_some]
+        exact hrj
+  · intro hcase
+    rw [hcorr, hbd]
+    rcases hcase with ⟨hiw, hck⟩ | ⟨hiw, j, hmj, hcj⟩
+    · obtain ⟨row, hrow⟩ : ∃ row, w.corr[i]? = some row := ⟨w.corr[i]'(by rw [hSw.rows]; exact hiw), List.getElem?_eq_getElem _⟩
+      have hrl := hSw.cols row (List.mem_of_getElem? hrow)
+      apply corrAt_marked _ _ _ i ix ix (row ++ List.replicate e.pixDim false)
+      · rw [List.getElem?_append_left (by simp; rw [hSw.rows]; exact hiw)]; simp [hrow]
+      · simp; omega
+      · rw [List.getElem?_append_left (by simpa using hix)]; simp [List.getElem?_range hix]
+      · exact hix
+      · simp only [corrAt, List.getD, hrow, Option.getD_some] at hck
+        rw [List.getD, List.getElem?_append_left (by omega)]
+        exact hck
+    · have hjm : j < m.length := (List.getElem?_eq_some_iff.mp hmj).1
+      have hie : i - w.worldDim < e.corr.length := by
+        by_cases hcon : i - w.worldDim < e.corr.length
+        · exact hcon
+        · have : e.corr[i - w.worldDim]? = none := List.getElem?_eq_none (by omega)
+          simp [corrAt, List.getD, this] at hcj
+      obtain ⟨row, hrow⟩ : ∃ row, e.corr[i - w.worldDim]? = some row := ⟨e.corr[i - w.worldDim]'hie, List.getElem?_eq_getElem _⟩
+      have hrl := hSe.cols row (List.mem_of_getElem? hrow)
+      apply corrAt_marked _ _ _ i ix (w.pixDim + j) (List.replicate w.pixDim false ++ row)
+      · rw [List.getElem?_append_right (by simp; rw [hSw.rows]; exact hiw)]
+        simp only [List.length_map, hSw.rows, List.getElem?_map, hrow, Option.map_some]
+      · simp; omega
+      · rw [List.getElem?_append_right (by simp)]; simpa using hmj
+      · exact hix
+      · simp only [corrAt, List.getD, hrow, Option.getD_some] at hcj
+        rw [List.getD, List.getElem?_append_right (by simp)]
+        simpa using hcj
+
 end Ndcube.C06
